@@ -269,17 +269,44 @@ def showOverlay (p : Prepared) (ps : List ParamVal) : String :=
   | .ok ov => "ov(" ++ ",".intercalate (ov.map showResolved) ++ ")"
   | .error e => showErr e
 
+/-- one step of a `seq` line: the served template and overlay must be those of the step's own text. The model of
+    the cache is "keyed by the exact text, so getOrPrepare(text) = prepare(parse(text))". -/
+def seqSteps : Nat → List String → Option (List String)
+  | _, [] => some []
+  | n, _stmt :: ast :: _lit :: ps :: rest => do
+    let tail ← seqSteps (n + 1) rest
+    if ast == "!" then
+      pure (s!"PT{n}=PARSEERR O{n}=-" :: tail)
+    else
+      let g ← (parseTreeAll ast).bind treeGrammar
+      let ps ← parseParams ps
+      let p := prepare g
+      pure (s!"PT{n}={showGrammar p.template} O{n}={showOverlay p ps}" :: tail)
+  | _, _ => none
+
+def handleBind (ast p1 p2 : String) : String :=
+  match (parseTreeAll ast).bind treeGrammar, parseParams p1, parseParams p2 with
+  | some g, some ps1, some ps2 =>
+    let p := prepare g
+    s!"T={showGrammar g} B1={showBind g ps1} B2={showBind g ps2} PT={showGrammar p.template} " ++
+    s!"SP=sp({",".intercalate (p.specs.map showSpec)}) O1={showOverlay p ps1} O2={showOverlay p ps2}"
+  | _, _, _ => "bad-input"
+
 def handle (line : String) : String :=
   match words line with
-  | ["ast", _] => "bad-op"
-  | [op, _stmt, ast, _l1, _l2, p1, p2] =>
-    if !op.startsWith "bind" then "bad-op" else
-    match (parseTreeAll ast).bind treeGrammar, parseParams p1, parseParams p2 with
-    | some g, some ps1, some ps2 =>
-      let p := prepare g
-      s!"T={showGrammar g} B1={showBind g ps1} B2={showBind g ps2} PT={showGrammar p.template} " ++
-      s!"SP=sp({",".intercalate (p.specs.map showSpec)}) O1={showOverlay p ps1} O2={showOverlay p ps2}"
-    | _, _, _ => "bad-input"
-  | _ => "bad-op"
+  | op :: rest =>
+    if op.startsWith "seq" then
+      match rest with
+      | _size :: steps =>
+        match seqSteps 1 steps with
+        | some out => " ".intercalate out
+        | none => "bad-input"
+      | [] => "bad-op"
+    else if op.startsWith "bind" then
+      match rest with
+      | [_stmt, ast, _l1, _l2, p1, p2] => handleBind ast p1 p2
+      | _ => "bad-op"
+    else "bad-op"
+  | [] => "bad-op"
 
 def main : IO Unit := runDriver handle
